@@ -49,6 +49,53 @@ def mustpass_callees(fn):
     return sorted(out)
 
 
+_EMPTY_CALL = re.compile(r"::(is_empty|len|null_count|num_rows|num_columns)$")
+_PLUMBING = re.compile(r"::(deref|as_ref|borrow|clone|as_slice|as_str|values|nulls|as_any\w*)$")
+
+
+def _only_empty_input_exits(b, lost):
+    """every successful exit that bypasses a lost callee is taken only when a test of `x.is_empty()` / `x.len() == 0` decides so:
+    the exit is control dependent on a switch whose discriminant is computed from is_empty / len and constants only"""
+    from .flow import control_dependence
+    oks = flow.ok_exits(b) if flow.returns_result(b) else b.return_blocks()
+    oks = [o for o in oks if o in b.reachable(0)]
+    dom = b.dominators()
+    lost_blocks = [bl for bl, t in b.calls() if short(callee(t) or "") in lost]
+    bypass = [o for o in oks if any(lb not in dom.get(o, ()) for lb in lost_blocks)]
+    if not bypass:
+        return False
+    cd = control_dependence(b)
+    for o in bypass:
+        # nearest deciding switches of this exit
+        sw = set(cd.get(o, ()))
+        x = o
+        seen = set()
+        while not sw and x not in seen:        # straight-line predecessors
+            seen.add(x)
+            ps = [p for p in b.preds().get(x, []) if p in b.reachable(0)]
+            if len(ps) != 1:
+                break
+            x = ps[0]
+            sw = set(cd.get(x, ()))
+        if not sw:
+            return False
+        ok_any = False
+        for s_ in sw:
+            d = b.term(s_)["d"]
+            from .mirlib import operand_locals
+            calls_seen = []
+            clean = True
+            for l in operand_locals(d):
+                _, calls = b.back_slice(l)
+                for _bl, term in calls:
+                    calls_seen.append(callee(term) or "")
+            if calls_seen and all(_EMPTY_CALL.search(n) or _PLUMBING.search(n) for n in calls_seen) and any(re.search(r"::(is_empty|len|num_rows)$", n) for n in calls_seen):
+                ok_any = True
+        if not ok_any:
+            return False
+    return True
+
+
 def build_table(F, crates):
     tab = {}
     for cn in crates:
@@ -78,6 +125,9 @@ def check(ck, F, rule, prefixes, floor):
         present = {short(callee(t) or "") for _, t in b.calls()}
         lost = [c for c in ref if c not in cur and c in present]       # still called somewhere in the function, but no longer on every successful path
         gained_local = [c for c in cur if c not in ref]
+        if lost and _only_empty_input_exits(b, lost):
+            ck.ok(rule, fid, "new successful exit(s) bypass %s, but only for empty input (guarded by is_empty / len == 0)" % lost)
+            continue
         if lost:
             ck.bad(rule, fid, "%s: %s no longer lie(s) on every successful path (they are still called, but some `return`/Ok exit now bypasses them)%s" % (
                 fid, lost, ("; new must-pass callees: %s" % gained_local) if gained_local else ""), "%s:%s" % (fn["file"], fn["line"]))
